@@ -66,6 +66,12 @@ LinkedMacros(S0) ==
     UNION { LET o == Cp(c)  h == S0.ch[o].h + 1 IN
             { <<Blk(o, 1), Upd(c, h), m>> : m \in LinkedActs(S0, c, S0.ch[o].cur, h) } : c \in Chains }
 
+\* close the own end first, then try to continue its opening handshake with a fresh proof (CLOSED is terminal)
+CloseFirstMacros(S0) ==
+    IF ~CLOSE THEN {} ELSE
+    { <<[a |-> "ChanCloseInit", c |-> pl[3].c, dt |-> 1, port |-> pl[3].port, chan |-> pl[3].chan]>> \o pl
+      : pl \in { q \in StepMacros(S0) : q[3].a \in {"ChanOpenAck", "ChanOpenConfirm"} } }
+
 MacroFor(S0, c, P(_)) ==
     LET cands == { pl \in StepMacrosOf(S0, c) : P(pl[3]) } IN
     IF cands = {} THEN <<>> ELSE CHOOSE pl \in cands : TRUE
@@ -160,11 +166,14 @@ Follow(S0, a, r) == IF r.res = "ok" /\ IsHandshakeMsg(a) /\ "fu" \notin DOMAIN a
                     ELSE IF r.res = "ok" /\ a.a = "Freeze" THEN FrozenProbes(r.S, a.c)
                     ELSE <<>>
 
-\* Warm-up: three walks out of four start with a full connection handshake, and half of those continue with a
-\* full channel handshake, so that the later (random) part of the walk also explores opened / closing channels.
+\* Warm-up: three walks out of four start with a full connection handshake (the fourth with crossing INITs), and
+\* half of them continue with a full channel handshake once a connection is OPEN, so that the later (random) part of
+\* the walk also explores opened / closing channels.
 NoChans(S0) == \A c \in Chains : DOMAIN Cur(S0, c).chans = {}
 Warmup(S0, k) ==
-    IF Len(sched) = 0 /\ k % 4 # 0
+    IF Len(sched) = 0 /\ k % 4 = 0        \* one walk out of four starts with crossing connection INITs
+    THEN { <<i, j>> : i \in Acts("A", "ConnOpenInit", ConnInitR(S0, "A")), j \in Acts("B", "ConnOpenInit", ConnInitR(S0, "B")) }
+    ELSE IF Len(sched) = 0
     THEN UNION { { FullConn(S0, c, i) : i \in Acts(c, "ConnOpenInit", ConnInitR(S0, c)) } : c \in Chains }
     ELSE IF Len(sched) > 0 /\ Len(sched) <= 20 /\ k % 2 = 1 /\ NoChans(S0)
     THEN UNION { { FullChan(S0, c, i) : i \in { j \in Acts(c, "ChanOpenInit", ChanInitR(S0, c)) : j.hops[1] \in OpenConns(S0, c) } }
@@ -178,7 +187,8 @@ PlanSet(S0, roll, k) ==
                                    ELSE { pl \in FullMacros(S0, k) : pl # <<>> })
     ELSE IF roll <= FULL_PCT + MACRO_PCT THEN StepMacros(S0)
     ELSE IF roll <= FULL_PCT + MACRO_PCT + MUT_PCT THEN MutMacros(S0)
-    ELSE IF roll <= FULL_PCT + MACRO_PCT + MUT_PCT + OOO_PCT THEN LinkedMacros(S0)
+    ELSE IF roll <= FULL_PCT + MACRO_PCT + MUT_PCT + OOO_PCT
+         THEN (IF k % 2 = 0 /\ CloseFirstMacros(S0) # {} THEN CloseFirstMacros(S0) ELSE LinkedMacros(S0))
     ELSE {}
 
 Next ==
